@@ -466,7 +466,7 @@ class Sym:
         if re.match(r"(copy|move) ", s) and not is_cast:
             v, rp = self.operand(path, s)
             return v, rp
-        if s.startswith("const "):
+        if s.startswith("const ") and not is_cast:
             return self.constant(s[6:]), None
         m = re.match(r"&(raw (?:const|mut) )?(mut )?(?:fake shallow )?(.*)$", s)
         if m and not s.startswith("&&"):
